@@ -33,6 +33,9 @@ type Desc struct {
 	// YieldPoint (setting "conn+yield"): the first goroutine arriving at this library yield point is
 	// held for the connection-wide timeout plus 60 ms - a schedule a loaded machine could produce.
 	YieldPoint string `json:"yield_point,omitempty"`
+	// K2 (setting "paced"): the device is slow but alive: it pauses at byte K for 3 s, then goes on
+	// and falls silent for good after byte K2. The 4 s timeout runs from the start of the operation.
+	K2 int `json:"k2,omitempty"`
 }
 
 // Timeout settings:
@@ -149,6 +152,9 @@ func runOnce(d Desc, sc *scen.Scenario) mon.Result {
 		defer yield.Install(nil)
 		defer func() { armed.Store(false) }()
 		yarm = armed
+	case "paced":
+		connWide = 4 * time.Second
+		T = 4 * time.Second
 	case "perop":
 		connWide = 4 * time.Second
 		perOp = []util.Option{opoptions.WithTimeoutOps(tShort), scen.WithCallbackTimeout(tShort)}
@@ -202,6 +208,10 @@ func runOnce(d Desc, sc *scen.Scenario) mon.Result {
 	ch := runOp(func() (string, error) { return sc.Op(s, perOp...) })
 	var r opRes
 	released := false
+	if d.Setting == "paced" {
+		pacer := time.AfterFunc(3*time.Second, func() { s.Conn.SetFault(devsim.FaultStall, d.Base+d.K2) })
+		defer pacer.Stop()
+	}
 	if expectSuccess {
 		// the device resumes only after the harness has SEEN that the call did not return
 		select {
@@ -242,6 +252,9 @@ func runOnce(d Desc, sc *scen.Scenario) mon.Result {
 	el := r.at.Sub(t0)
 	obs := map[string]int64{"cases": 1}
 	tags := []string{"scenario=" + d.Scenario, "setting=" + d.Setting}
+	if d.Setting == "paced" {
+		obs["paced_cases"]++
+	}
 	if r.pan != nil {
 		return viol("c05/panic-in-caller:"+d.Scenario, "operation panicked: %v", r.pan)
 	}
@@ -263,6 +276,10 @@ func runOnce(d Desc, sc *scen.Scenario) mon.Result {
 		isPriv := errors.Is(r.err, util.ErrPrivilegeError)
 		if sc.PrivErrOK && d.Setting == "conn+yield" {
 			// the held goroutine may make either phase run into its deadline
+			if !isTimeout && !isPriv {
+				return viol("c05/error-class:"+d.Scenario, "expected a timeout or privilege error, got %q", r.err)
+			}
+		} else if sc.PrivErrOK && d.Setting == "paced" {
 			if !isTimeout && !isPriv {
 				return viol("c05/error-class:"+d.Scenario, "expected a timeout or privilege error, got %q", r.err)
 			}
@@ -436,6 +453,17 @@ func gen(tier string, seed int64) []mon.Case {
 					}
 				}
 			}
+			if si == 0 && sc.Pre != nil && sc.SingleDeadline && st.S >= 30 && (tier == "thorough" || sc.Quick) {
+				// slow-then-silent device: the deadline must run from the start of the operation, not
+				// restart with every step of a multi-step exchange
+				pairs := [][2]int{{st.S * 3 / 10, st.S * 8 / 10}, {st.S / 2, st.S * 9 / 10}}
+				if tier == "thorough" {
+					pairs = append(pairs, [2]int{st.S * 2 / 10, st.S * 6 / 10}, [2]int{st.S * 4 / 10, st.S * 7 / 10}, [2]int{st.S * 6 / 10, st.S - 2})
+				}
+				for _, pr := range pairs {
+					add(Desc{Scenario: sc.Name, K: pr[0], K2: pr[1], Setting: "paced", Seg: seg, Base: st.Base, S: st.S, Want: st.Want, CmdAt: st.CmdAt})
+				}
+			}
 			if sc.PerOp && si == 0 {
 				// precedence by outcome: a handful of stall points per scenario
 				ks := []int{0, st.S / 3, st.S / 2, st.S - 1}
@@ -460,7 +488,8 @@ func init() {
 		Level: "fault_enumeration",
 		Rule: "For every listed operation scenario the full exchange stream S is measured by a fault-free dry run; then for EVERY k in [0,|S|] a fresh session's device " +
 			"goes silent after byte k under the connection-wide timeout (and the per-operation override where the operation accepts one); precedence is decided by outcome " +
-			"(per-op longer than connection-wide with a device that resumes; zero = maximum). Recovery is judged when the device sits at a clean command prompt (CLI) or for NETCONF. " +
+			"(per-op longer than connection-wide with a device that resumes; zero = maximum); a slow-then-silent device (pause 3 s at k, silent after k2, timeout 4 s) checks that the " +
+			"deadline runs from the start of the operation; a goroutine held at a yield point past the deadline checks the expiry race. Recovery is judged when the device sits at a clean command prompt (CLI) or for NETCONF. " +
 			"Non-trivial = 0<k<|S|. Distinct = (scenario, setting, k, segmentation).",
 		Assumptions: []string{
 			"the stall is modelled at the transport boundary: devsim.Conn delivers exactly k bytes of the exchange and then blocks reads; the device itself has produced its whole reaction",
